@@ -12,29 +12,38 @@
 (***************************************************************************)
 EXTENDS Naturals, Sequences, FiniteSets, TLC
 
-CONSTANTS Tasks, Masters, Rid,     \* [Tasks -> Masters]
+CONSTANTS Tasks, Masters, Rid,     \* [Tasks -> Masters \cup {"*"}]; "*": any master will do
           MaxCancel,               \* cancel requests per behaviour
           DevSkipNeighbour,        \* removal while iterating skips the next entry
-          DevCancelKeepsCached     \* named tasks are canceled but stay cached
+          DevCancelKeepsCached,    \* named tasks are canceled but stay cached
+          DevStarOnlyIfNoOwn       \* registration relays the "*" backlog only if the master
+                                   \* has no backlog of its own (elif)
 
-VARIABLES arrived, cache, reg, fwd, canc, named, cnamed, ncan
+Keys == Masters \cup {"*"}        \* the cache is keyed by master uid or "*"
 
-vars == <<arrived, cache, reg, fwd, canc, named, cnamed, ncan>>
+VARIABLES arrived, cache, keys, reg, fwd, canc, named, cnamed, ncan
+
+vars == <<arrived, cache, keys, reg, fwd, canc, named, cnamed, ncan>>
 
 SeqSet(s) == {s[i] : i \in 1 .. Len(s)}
 Without(s, i) == SubSeq(s, 1, i - 1) \o SubSeq(s, i + 1, Len(s))
+AnyReg == \E m \in Masters : reg[m]
+\* is there a queue the task can go to?
+Served(t) == IF Rid[t] = "*" THEN AnyReg ELSE reg[Rid[t]]
 
 Init ==
-  /\ arrived = {} /\ cache = [m \in Masters |-> <<>>] /\ reg = [m \in Masters |-> FALSE]
+  /\ arrived = {} /\ cache = [k \in Keys |-> <<>>] /\ keys = {}
+  /\ reg = [m \in Masters |-> FALSE]
   /\ fwd = [t \in Tasks |-> 0] /\ canc = [t \in Tasks |-> 0]
   /\ named = {} /\ cnamed = {} /\ ncan = 0
 
-\* _schedule_incoming: forward to the registered queue or keep
+\* _schedule_incoming: forward to a registered queue (round robin for "*") or keep
 Arrive(t) ==
   /\ t \notin arrived /\ arrived' = arrived \cup {t}
-  /\ IF reg[Rid[t]]
-     THEN fwd' = [fwd EXCEPT ![t] = @ + 1] /\ UNCHANGED cache
-     ELSE cache' = [cache EXCEPT ![Rid[t]] = Append(@, t)] /\ UNCHANGED fwd
+  /\ IF Served(t)
+     THEN fwd' = [fwd EXCEPT ![t] = @ + 1] /\ UNCHANGED <<cache, keys>>
+     ELSE /\ cache' = [cache EXCEPT ![Rid[t]] = Append(@, t)]
+          /\ keys' = keys \cup {Rid[t]} /\ UNCHANGED fwd
   /\ UNCHANGED <<reg, canc, named, cnamed, ncan>>
 
 \* what is left of a cached list: intended, and "for x in list: list.remove(x)"
@@ -45,24 +54,28 @@ Walk(s, i, S) == IF i > Len(s) THEN s
                  ELSE Walk(s, i + 1, S)
 Left(s, S) == IF DevSkipNeighbour THEN Walk(s, 1, S) ELSE Kept(s, S)
 
+\* the list stays under its key even if the request empties it
 Cancel(S) ==
   /\ Cardinality(S) \in 1 .. 3
   /\ ncan < MaxCancel /\ ncan' = ncan + 1
-  /\ \E m \in Masters : cache[m] # <<>>          \* arriving while tasks are cached
-  /\ LET hit  == {t \in S : \E m \in Masters : t \in SeqSet(cache[m])}
+  /\ \E k \in Keys : cache[k] # <<>>             \* arriving while tasks are cached
+  /\ LET hit  == {t \in S : \E k \in Keys : t \in SeqSet(cache[k])}
          gone == {t \in hit : t \notin SeqSet(Left(cache[Rid[t]], S))}
      IN /\ named' = named \cup S
         /\ cnamed' = cnamed \cup hit
         /\ canc' = [t \in Tasks |-> IF t \in gone THEN canc[t] + 1 ELSE canc[t]]
         /\ cache' = IF DevCancelKeepsCached THEN cache
-                    ELSE [m \in Masters |-> Left(cache[m], S)]
-  /\ UNCHANGED <<arrived, reg, fwd>>
+                    ELSE [k \in Keys |-> Left(cache[k], S)]
+  /\ UNCHANGED <<arrived, keys, reg, fwd>>
 
-\* register_raptor_queue: relay what was kept
+\* register_raptor_queue: relay the master's own backlog and the "*" backlog
 Register(m) ==
   /\ ~reg[m] /\ reg' = [reg EXCEPT ![m] = TRUE]
-  /\ fwd' = [t \in Tasks |-> IF t \in SeqSet(cache[m]) THEN fwd[t] + 1 ELSE fwd[t]]
-  /\ cache' = [cache EXCEPT ![m] = <<>>]
+  /\ LET star == ~(DevStarOnlyIfNoOwn /\ m \in keys)
+         out  == SeqSet(cache[m]) \cup (IF star THEN SeqSet(cache["*"]) ELSE {})
+     IN /\ fwd' = [t \in Tasks |-> IF t \in out THEN fwd[t] + 1 ELSE fwd[t]]
+        /\ cache' = [k \in Keys |-> IF k = m \/ (k = "*" /\ star) THEN <<>> ELSE cache[k]]
+        /\ keys' = keys \ ({m} \cup (IF star THEN {"*"} ELSE {}))
   /\ UNCHANGED <<arrived, canc, named, cnamed, ncan>>
 
 Next == \/ \E t \in Tasks : Arrive(t)
@@ -70,14 +83,19 @@ Next == \/ \E t \in Tasks : Arrive(t)
         \/ \E m \in Masters : Register(m)
 Spec == Init /\ [][Next]_vars
 
-Cached(t) == \E m \in Masters : t \in SeqSet(cache[m])
+Cached(t) == \E k \in Keys : t \in SeqSet(cache[k])
 
-TypeOK == arrived \subseteq Tasks /\ cnamed \subseteq named
+TypeOK == arrived \subseteq Tasks /\ cnamed \subseteq named /\ keys \subseteq Keys
 InvNamedNeverRelayed ==
   \A t \in cnamed : fwd[t] = 0 /\ canc[t] = 1 /\ ~Cached(t)
 InvBystanderRelayedOnce ==
   \A t \in Tasks \ cnamed :
      /\ canc[t] = 0 /\ fwd[t] <= 1
-     /\ (t \in arrived => IF reg[Rid[t]] THEN fwd[t] = 1 /\ ~Cached(t)
+     /\ (t \in arrived => IF Served(t) THEN fwd[t] = 1 /\ ~Cached(t)
                           ELSE fwd[t] = 0 /\ Cached(t))
+\* once SOME master has registered, nothing addressed to "*" or to a registered
+\* master stays behind
+InvNoTaskStuck ==
+  /\ AnyReg => cache["*"] = <<>>
+  /\ \A m \in Masters : reg[m] => cache[m] = <<>>
 =============================================================================
